@@ -86,7 +86,7 @@ def _base(i):
                 "args": {"seed": None, "num_workers": 0}, "knobs": {"pool": "sim"}, "stale": []}
     if i == 1:
         corpus = [{"id": uid, "container": c, "n": n, "seed": 200 + j, "channels": 1, "store_dtype": "float64"}
-                  for j, (uid, c, n) in enumerate([("u", "npy", 260), ("ua", "npz", 300), ("uab", "pt", 180)])]
+                  for j, (uid, c, n) in enumerate([("uab", "npy", 260), ("u", "npz", 300), ("ua", "pt", 180)])]
         return {"corpus": corpus, "cfg": _cfg_small("stft"), "pre": [{"name": "dither", "coeff": 2.0}],
                 "post": [{"name": "deltas", "num_deltas": 1}], "args": {"seed": 7, "num_workers": 0},
                 "knobs": {"pool": "sim", "manifest_buffer": 16}, "stale": []}
@@ -170,7 +170,7 @@ def generate(rng, tier, k):
         cfg = None
     else:
         cfg, comp, _ = configs.gen_config(rng, "stft" if rng.random() < 0.75 else "si")
-        if comp.frame_length > 400:
+        if comp.frame_length > 400 or not common.torch_portable(cfg, comp):
             cfg = _cfg_small("stft")
     seed = rng.choice((None, None, rng.randrange(0, 1000)))
     pre, post = [], []
